@@ -108,6 +108,42 @@ REGISTRY: Dict[str, List[Tuple[Frag, str]]] = {
               lets=("sq", "qw", "qx", "qy", "qz"), result="return", sqrt=True, funcs=("safe_zero_division",)), "real")
         for nm in ("trace_positive_cond", "cond_1", "cond_2", "cond_3")
     ],
+    "C02": [
+        (Frag("origin_half_size", _GRID, "Grid.origin", "assign", {"size": "real"}, target="offset", occ=(0, 0)), "real"),
+        (Frag("origin_set_half_size", _GRID, "Grid.origin_", "assign", {"size": "real"}, target="offset", occ=(0, 0)), "real"),
+        (Frag("origin_value", _GRID, "Grid.origin", "assign", {"center": "real", "offset": "real"}, target="return", occ=(0, 0),
+              rename={"self._center": "center"}), "real"),
+        (Frag("origin_set_center", _GRID, "Grid.origin_", "assign", {"origin": "real", "offset": "real"}, target="self._center"), "real"),
+    ],
+    "C03": [
+        (Frag("resize_spacing_corners", _GRID, "Grid._resize", "assign", {"extent": "real", "sp": "real", "size": "real"}, target="spacing",
+              occ=(0, 0), rename={"self.extent()": "extent", "self.spacing()": "sp"}), "real"),
+        (Frag("resize_spacing_extent", _GRID, "Grid._resize", "assign", {"extent": "real", "size": "real"}, target="spacing",
+              occ=(1, 1), rename={"self.extent()": "extent"}), "real"),
+        (Frag("pool_size", _GRID, "Grid.pool", "assign", {"n": "real", "ks": "real", "ceil_mode": "bool"}, target="size", occ=(0, 2),
+              rename={"self.size_tensor()": "n"}), "real"),
+        (Frag("pool_origin", _GRID, "Grid.pool", "assign", {"ks": "real"}, target="grid", arg_of="Grid", kwarg="origin",
+              idfuncs=("self.index_to_world",)), "real"),
+        (Frag("pool_spacing", _GRID, "Grid.pool", "assign", {"sp": "real", "ks": "real"}, target="grid", arg_of="Grid", kwarg="spacing",
+              rename={"self.spacing()": "sp"}), "real"),
+    ],
+    "C07": [
+        (Frag("translation_invert", "deepali/spatial/linear.py", "Translation.tensor", "block", {"offset": "real", "invert": "bool"},
+              tests=("self.invert",), outs=("offset",), rename={"self.invert": "invert"}), "real"),
+        (Frag("iso_scaling_invert", "deepali/spatial/linear.py", "IsotropicScaling.tensor", "block", {"scales": "real", "invert": "bool"},
+              tests=("self.invert",), outs=("scales",), rename={"self.invert": "invert"}), "real"),
+        (Frag("aniso_scaling_invert", "deepali/spatial/linear.py", "AnisotropicScaling.tensor", "block", {"scales": "real", "invert": "bool"},
+              tests=("self.invert",), outs=("scales",), rename={"self.invert": "invert"}), "real"),
+    ],
+    "C12": [
+        (Frag("fd_quot", _IMG, "finite_differences.finite_difference", "lets", {"fb": "real", "fa": "real", "step_size": "real", "dist": "int"},
+              lets=("h", "h"), result="=return", idfuncs=("reshape",),
+              rename={"data[b]": "fb", "data[a]": "fa", "j.start - i.start": "dist"}), "real"),
+    ] + [
+        (Frag(f"fd_{v}_{nm}", _IMG, "finite_differences", "assign", {"n": "int", "dilation": "int"}, target=v, occ=(k, k),
+              arg_of="slice", rename={"data.shape[dim]": "n"}), "int")
+        for v in ("i", "j") for k, nm in enumerate(("forward", "backward", "central", "lower", "mid", "upper"))
+    ],
     "C11": [
         (Frag("expv_sign", _FL, "expv", "block", {"scale": "real", "inverse": "bool"}, tests=("inverse",), outs=("scale",)), "real"),
         (Frag("expv_init", _FL, "expv", "assign", {"flow": "real", "scale": "real", "steps": "nat"}, target="disp", occ=(0, 0)), "real"),
